@@ -104,27 +104,31 @@ class Runner(HistoryRunner):
         return ok
 
 
-def _wild(p, h, rng, res):
+def _wild(p, h, rng, res, cfg=None):
     """Every fifth history draws its names, keys and values from the pool of awkward strings and numbers."""
     if h % 5 == 4 and p.max_rows <= 45 and len(p.meas) <= 8:
-        gen.make_wild(p, rng)
+        gen.make_wild(p, rng, cfg)
         res.count("histories_wild_vocabulary")
     return p
 
 
 def _cfg_variant(cfg, h):
-    """Every third CSV history runs with flush_on_insert=False (reads go through the same buffered handle)."""
-    if cfg["storage"] == "csv" and h % 11 == 5:
-        return dict(cfg, access_mode="w+")  # a database created with "w+" and then used for everything
-    if cfg["storage"] == "csv" and h % 13 == 8:
-        return dict(cfg, encoding="latin-1")  # every file the storage opens must be opened with it, scratch files included
-    if cfg["storage"] == "csv" and h % 3 == 0:
-        return dict(cfg, flush=False)
-    if cfg["storage"] == "csv" and h % 7 == 4:
-        import csv as _csv
+    """Non-default storage options, each on its own residue class of the history number, so that they also occur in
+    pairs (buffered inserts + "w+", a dialect + an encoding, ...)."""
+    if cfg["storage"] != "csv":
+        return cfg
+    import csv as _csv
 
-        return dict(cfg, csv=[{"delimiter": ";"}, {"quotechar": "'", "quoting": _csv.QUOTE_ALL}, {"delimiter": "\t", "lineterminator": "\n"}][h % 3])
-    return cfg
+    out = dict(cfg)
+    if h % 11 == 5:
+        out["access_mode"] = "w+"  # a database created with "w+" and then used for everything
+    if h % 13 == 8 or h % 17 == 3:
+        out["encoding"] = "latin-1"  # every file the storage opens must be opened with it, scratch files included
+    if h % 3 == 0:
+        out["flush"] = False  # reads go through the same buffered handle
+    if h % 7 == 4 or h % 10 == 9:
+        out["csv"] = [{"delimiter": ";"}, {"quotechar": "'", "quoting": _csv.QUOTE_ALL}, {"delimiter": "\t", "lineterminator": "\n"}][h % 3]
+    return out
 
 
 def run(res, tier, seed, shard, nshards):
@@ -142,7 +146,7 @@ def run(res, tier, seed, shard, nshards):
             for h in range(N_HIST[tier]):
                 rng = rng_for("C03", tier, seed, shard, ci, h)
                 cfgv = _cfg_variant(cfg, h)
-                prof = _wild(profile(h), h, rng, res)
+                prof = _wild(profile(h), h, rng, res, cfgv)
                 if cfgv.get("encoding"):
                     # text the configured encoding can express and ASCII cannot
                     prof.extra_tag_vals = list(prof.extra_tag_vals) + ["\u00e9t\u00e9", "\u00fc", "\u00a3"]
